@@ -271,6 +271,9 @@ func genC03(t *rapid.T) *C03Case {
 		}
 		if c.Carrier != "urlencoded" && rapid.IntRange(0, 5).Draw(t, "break") == 0 {
 			c.Break = rapid.SampledFrom([]string{"truncate", "dropdelim"}).Draw(t, "breakkind")
+			if c.Carrier == "xml" && rapid.Bool().Draw(t, "strayend") {
+				c.Break = "strayend"
+			}
 		}
 	}
 	return c
@@ -301,6 +304,9 @@ func breakBody(kind, body string) string {
 	switch kind {
 	case "truncate":
 		return body[:len(body)*2/3]
+	case "strayend":
+		// a closing tag that closes nothing, with more content behind it
+		return body + "</x><late>payload</late>"
 	case "dropdelim":
 		for _, d := range []string{"\r\n\r\n", "}", "]", "</", "\"", "--"} {
 			if i := strings.LastIndex(body, d); i > 0 {
@@ -591,6 +597,10 @@ func checkC03(c *C03Case) Result {
 			res.Fail = failf("a JSON body that does not parse was processed without any error variable or interruption%s", ctx)
 			return res
 		}
+		if c.Carrier == "xml" && c.Break == "strayend" {
+			res.Fail = failf("an XML body with a stray closing tag and content behind it was processed without any error variable or interruption%s", ctx)
+			return res
+		}
 		if c.Carrier == "multipart" && !strings.HasSuffix(breakBody(c.Break, body), "--"+c.Boundary+"--\r\n") {
 			if known("C03-truncated-multipart-silent") {
 				statExcluded("C03-truncated-multipart-silent")
@@ -634,6 +644,9 @@ func checkC03(c *C03Case) Result {
 	}
 	if broken {
 		res.Labels = append(res.Labels, "unparseable:"+c.Carrier)
+		if c.Break == "strayend" {
+			res.Labels = append(res.Labels, "xml-stray-closing-tag")
+		}
 	}
 	if excused {
 		res.Labels = append(res.Labels, "error-flagged")
